@@ -45,6 +45,11 @@ CHECKS = {
          "Curve arithmetic is not modelled (C14); the edit list is finite and named, positions are sampled.",
          "TLA+ predicate evaluated by TLC on recorded offers of systematically modified objects to a real visor",
          "DESIGN.md 5 C10, 9"),
+ "C08": ("crash", "fault_enumeration",
+         "Crash.tla models the node's life as atomic commits (database creation, index/history initialisation, genesis, one commit per block and per pool update) with up to two crashes anywhere, restart and re-delivery of the remaining events; TLC checks that the integrity verification is ok on every disk a crash can leave, that the script always finishes (liveness) and that the final disk equals the uncrashed one. On the real node the commit hook in dbutil.DB.Update (build tag verif) copies the bolt file at every commit boundary of a scripted life; every copy, and the created-but-empty file, is verified with CheckDatabase under a watchdog (non-return is the violation), restarted with visor.New + Init, given the remaining blocks and pool updates, and its head, unspent checksum, unspent count, history size and pool are compared with the uncrashed run; the thorough tier crashes the restarted run again at each of its commit boundaries. TLC checks every plan record and that the recorded commit sequence is one of the specified life-cycle.",
+         "Crashes between commits are enumerated completely for the script; crashes inside a commit rely on bolt's atomic commit (not replayed at page level); the start-up sequence is visor.OpenDB/CheckDatabase/New/Init (the command-line wrapper's DB-version bookkeeping is not included).",
+         "TLA+ life-cycle spec model-checked by TLC (incl. liveness); every commit-boundary crash image of the real database restarted by the real code; records checked by TLC",
+         "DESIGN.md 4.2, 5 C08, 9"),
  "C09": ("txn", "exploration",
          "TxnRules.tla states well-formedness as a predicate over a transaction's raw fields (inputs, outputs, signature forms by construction, type, length field vs measured size, inner hash). The complete decision table of the small abstract domain (0..2 inputs and outputs, every fault on/off, every signature valid / null / non-canonical: 4224 vectors) is built as real transactions and passed to Verify and VerifyUnsigned; plus seeded random vectors with up to 3 inputs/outputs and four kinds of unacceptable signature, and DeserializeTransaction on mutated byte strings (decodes => re-encodes to the same bytes, never panics). TLC evaluates the predicate on every record.",
          "Exhaustive over the stated abstract domain, sampling beyond it; arbitrary byte strings are sampled; signature forms are what the recorder constructed.",
